@@ -604,7 +604,7 @@ func c07Known(c *caseCtx) (res caseResult) {
 		select {
 		case <-ctx.Done():
 		case <-time.After(wd):
-			res.violate("a context did not become done after the Stopped handler finished")
+			res.neverOrNotYet("a context did not become done after the Stopped handler finished")
 		}
 	}
 	res.Desc = "directed: second stop request while the target is held inside its Stopped handler"
